@@ -190,7 +190,8 @@ pub struct WorkerSpec {
 #[derive(Debug)]
 pub enum VDown {
     /// (task, instance, variant (None = prefill), rq, node list)
-    Compute(Vec<(TaskId, u32, Option<u32>, u32, Vec<WorkerId>)>),
+    /// (task, instance, variant, request, nodes, has a time limit - read from the shared data entry the task points to)
+    Compute(Vec<(TaskId, u32, Option<u32>, u32, Vec<WorkerId>, bool)>),
     Retract(Vec<TaskId>),
     Cancel(Vec<TaskId>),
     NewWorker(WorkerId),
@@ -237,6 +238,7 @@ fn vdown(m: &ToWorkerMessage) -> VDown {
                         t.resource_rq_variant.map(|v| v.as_num() as u32),
                         t.resource_rq_id.as_num(),
                         t.node_list.clone(),
+                        c.shared_data.get(t.shared_index).map(|d| d.time_limit.is_some()).unwrap_or(false),
                     )
                 })
                 .collect(),
